@@ -107,7 +107,7 @@ class StrainWorker(Task):
         ctx.oblige("frame.reads-only-input", reads <= {"<path:Fr>"}, "P", note=str(reads))
 
 
-def tasks(tier):
+def _tasks0(tier):
     from props.colander_parents import parent_tasks
     return [StrainWorker(3), StrainWorker(2)] + parent_tasks(tier)
 
@@ -138,3 +138,10 @@ def scenarios(tier, seed):
 def run_scenario(p, wd):
     from harness.rt_tools import run_colander_scenario
     return run_colander_scenario(p, wd)
+
+
+
+def tasks(tier):
+    # the FAB header parsers / formatter (real bodies on canonical header text): the obligations behind the header contracts
+    from props.parsers import parser_tasks
+    return _tasks0(tier) + parser_tasks("C05", nds=(2, 3))
